@@ -23,9 +23,9 @@ mutual
 theorem normN_revDup : ∀ x, normN (revDup x) = normN x
   | .inner s f m ks => by simp [revDup, normN, normL_revDupL ks]
   | .term s f m v => by simp [revDup, normN]
-theorem normL_revDupL : ∀ l, normL (revDupL l) = normL l
+theorem normL_revDupL : ∀ l, normL13 (revDupL l) = normL13 l
   | [] => rfl
-  | x :: xs => by simp [revDupL, normL, normN_revDup x, normL_revDupL xs]
+  | x :: xs => by simp [revDupL, normL13, normN_revDup x, normL_revDupL xs]
 end
 
 mutual
@@ -220,13 +220,13 @@ theorem revNode_delete {S : Schema} {inh : Option Op} {c : DNode} (hk : S.isKey 
 theorem findForApply_congr_fun {S : Schema} {l : List DNode} {p p' : DNode} (h : ∀ x, matchP S p' x = matchP S p x) :
     findForApply S l p' = findForApply S l p := by
   have : matchP S p' = matchP S p := funext h
-  simp [findForApply_eq, this]
+  simp [findForApply_eq13, this]
 
 /-- `create` of a node whose subtree is plain and good -/
 theorem apply_create_node {S : Schema} (K : KeyOrder S) {n : Nat} {hp : Bool} {inh : Option Op} {c : DNode} {L : List DNode}
     (hh : c.height ≤ n) (hop : effOp c inh = some .create) (hpl : plainL c.kids = true) (hg : goodN S c = true) :
     applyNode S fx n L hp inh c = .ok (insertNode S L (mkCreated c)) := by
-  obtain ⟨k, rfl⟩ : ∃ k, n = k + 1 := ⟨n - 1, by have := height_pos c; omega⟩
+  obtain ⟨k, rfl⟩ : ∃ k, n = k + 1 := ⟨n - 1, by have := height_pos13 c; omega⟩
   have hd := goodN_dom hg
   rw [applyNode_succ_nuo hd.nuo]
   simp only [hop, childInh_of_effOp_create hop]
@@ -270,7 +270,7 @@ def ListRevSpec (S : Schema) (fx : Fixes) (D : List DNode) : Prop :=
   ∀ (n : Nat) (hp : Bool) (inh : Option Op) (L : List DNode) (leading : Bool), heightL D ≤ n → goodT S L = true →
     exactK S inh L leading D = true →
     ∃ R, revL S inh (revDupL D) = .ok R ∧ heightL R = heightL D ∧ (dk S leading R).isEmpty = (dk S leading D).isEmpty ∧
-      normL (keysOf S R) = normL (keysOf S D) ∧
+      normL13 (keysOf S R) = normL13 (keysOf S D) ∧
       ∃ L1, applyF S fx n hp inh (dk S leading D) L = .ok L1 ∧ goodT S L1 = true ∧ keysOf S L1 = keysOf S L ∧
         (∀ q, Dom S q → (∀ c ∈ dk S leading D, matchP S c q = false) → look S L1 q = look S L q) ∧
         ∀ X, goodT S X = true → keysOf S X = keysOf S L → (∀ c ∈ dk S leading D, look S X c = look S L1 c) →
@@ -309,7 +309,7 @@ theorem nodeRev_create {S : Schema} (K : KeyOrder S) {c : DNode} {n : Nat} {hp :
   intro X hgX _ hlX
   rw [h3] at hlX
   obtain ⟨i, hi, _, hg', hkX, hloc, hnone⟩ := fwd_erase K hgX hd hk hlX
-  obtain ⟨k, rfl⟩ : ∃ k, n = k + 1 := ⟨n - 1, by have := height_pos c; omega⟩
+  obtain ⟨k, rfl⟩ : ∃ k, n = k + 1 := ⟨n - 1, by have := height_pos13 c; omega⟩
   refine ⟨X.eraseIdx i, ?_, hg', hkX, hloc, by rw [hnone]⟩
   rw [applyNode_succ_nuo (by simpa using hd.nuo), effOp_changeOp (metaOK_revDup hm)]
   simp only [findForApply_congr_fun hmatch, hi]
@@ -332,7 +332,7 @@ theorem nodeRev_delete {S : Schema} (K : KeyOrder S) {c : DNode} {n : Nat} {hp :
   refine ⟨_, hrev, by rw [height_changeOp, height_revDup], by simp, hmatch, ?_⟩
   intro L hgL _ hl
   obtain ⟨i, hi, _, hg', hkL, hloc, hnone⟩ := fwd_erase K hgL hd hk hl
-  obtain ⟨k, rfl⟩ : ∃ k, n = k + 1 := ⟨n - 1, by have := height_pos c; omega⟩
+  obtain ⟨k, rfl⟩ : ∃ k, n = k + 1 := ⟨n - 1, by have := height_pos13 c; omega⟩
   refine ⟨L.eraseIdx i, ?_, hg', hkL, hloc, ?_⟩
   · rw [applyNode_succ_nuo hd.nuo, hop]
     simp only [hi]
@@ -522,7 +522,7 @@ theorem nodeRev_replace {S : Schema} (K : KeyOrder S) {c : DNode} {n : Nat} {hp 
     NodeRevConcl S fx c n hp inh e := by
   obtain ⟨hd, hm, hk⟩ := exactE_base hex
   obtain ⟨hct, x, rfl, hleaf, hov, hod, hne⟩ := exactE_replace hex hop
-  obtain ⟨k, rfl⟩ : ∃ k, n = k + 1 := ⟨n - 1, by have := height_pos c; omega⟩
+  obtain ⟨k, rfl⟩ : ∃ k, n = k + 1 := ⟨n - 1, by have := height_pos13 c; omega⟩
   -- the reversed node
   have hkind : S.kind? (revDup c).sid = some .leaf := by simpa using isKind_iff.mp hleaf
   have hov' : getMeta (revDup c) "orig-value" = some x.val := by simpa [getMeta_def] using hov
@@ -590,7 +590,7 @@ theorem nodeRev_none_term {S : Schema} (K : KeyOrder S) {c : DNode} {n : Nat} {h
     NodeRevConcl S fx c n hp inh e := by
   obtain ⟨hd, hm, hk⟩ := exactE_base hex
   obtain ⟨x, rfl, hxv, hod⟩ := exactE_none_term hex hop hct
-  obtain ⟨k, rfl⟩ : ∃ k, n = k + 1 := ⟨n - 1, by have := height_pos c; omega⟩
+  obtain ⟨k, rfl⟩ : ∃ k, n = k + 1 := ⟨n - 1, by have := height_pos13 c; omega⟩
   have hod' : getMeta (revDup c) "orig-default" = some (boolBytes x.flags.dflt) := by simpa [getMeta_def] using hod
   obtain ⟨c', hc', hs', hv', ht', hk', hdf', hop', hh'⟩ := revDefault_spec hod'
   have hSt : S.isTerm c.sid = true := by rw [← hd.typed]; exact hct
@@ -697,7 +697,7 @@ theorem exactK_congr {S : Schema} {inh : Option Op} {L L' : List DNode} (hk : ke
 
 /-- `matchP` looks at the diff node's schema node, value and list keys (up to `normN`) only -/
 theorem matchP_of_same_keys {S : Schema} {d d' : DNode} (hd : S.isDupInst d.sid = false) (h1 : d'.sid = d.sid)
-    (h2 : d'.val = d.val) (h3 : normL (keysOf S d'.kids) = normL (keysOf S d.kids)) (x : DNode) :
+    (h2 : d'.val = d.val) (h3 : normL13 (keysOf S d'.kids) = normL13 (keysOf S d.kids)) (x : DNode) :
     matchP S d' x = matchP S d x := by
   simp only [matchP, h1, instMatch, hd, sameInst, h2]
   have : keysEq (keysOf S x.kids) (keysOf S d'.kids) = keysEq (keysOf S x.kids) (keysOf S d.kids) := by
@@ -712,7 +712,7 @@ theorem matchP_setKids {S : Schema} (K : KeyOrder S) {x : DNode} {ks : List DNod
   | term => simp [DNode.isTerm] at hi
   | inner s f m k => simpa [DNode.setKids, DNode.val] using h0
 
-theorem normN_setKids_inner {x : DNode} {ks : List DNode} (hi : x.isTerm = false) (h : normL ks = normL x.kids) :
+theorem normN_setKids_inner {x : DNode} {ks : List DNode} (hi : x.isTerm = false) (h : normL13 ks = normL13 x.kids) :
     normN (x.setKids ks) = normN x := by
   cases x with
   | term => simp [DNode.isTerm] at hi
@@ -750,7 +750,7 @@ theorem nodeRev_none_inner {S : Schema} (K : KeyOrder S) {s : Nat} {f : Flags} {
   have hgx : goodN S x = true := hge x rfl
   have hgxk : goodT S x.kids = true := goodN_kidsT hgx
   have hxd : Dom S x := goodN_dom hgx
-  obtain ⟨k, rfl⟩ : ∃ k, n = k + 1 := ⟨n - 1, by have := height_pos (DNode.inner s f m ks); omega⟩
+  obtain ⟨k, rfl⟩ : ∃ k, n = k + 1 := ⟨n - 1, by have := height_pos13 (DNode.inner s f m ks); omega⟩
   have hks : heightL ks ≤ k := height_inner_le hh
   obtain ⟨R, hR, hRh, hRe, hRk, K1, hK1, hgK1, hkK1, hloc1, hback⟩ :=
     IH k true (childInhOf (.inner s f m ks) inh) x.kids true hks hgxk hexk
@@ -799,7 +799,7 @@ theorem nodeRev_none_inner {S : Schema} (K : KeyOrder S) {s : Nat} {f : Flags} {
     have hx1t : (x.setKids K1).isTerm = false := by simpa using hxt
     obtain ⟨K2, hK2, hgK2, hkK2, hloc2, hres⟩ := hback K1 hgK1 hkK1 (fun _ _ => rfl)
     -- the children are back (up to normN)
-    have hnorm : normL K2 = normL x.kids := by
+    have hnorm : normL13 K2 = normL13 x.kids := by
       apply normL_eq_of_look K (goodT_goodL hgK2) (goodT_goodL hgxk)
       intro q hq
       by_cases hex2 : ∃ c ∈ noKeys S ks, matchP S c q = true
@@ -868,7 +868,7 @@ theorem listRev_cons {S : Schema} (K : KeyOrder S) {c : DNode} {cs : List DNode}
     · rw [dk_cons_key hkr, dk_cons_key hk]
       exact hRe
     · rw [keysOf_cons_key hkr, keysOf_cons_key hk]
-      simp [normL, normN_revDup, hRk]
+      simp [normL13, normN_revDup, hRk]
     · rw [dk_cons_key hk]
       exact hL1
     · rw [dk_cons_key hk]
